@@ -730,7 +730,7 @@ def run(ctx):
     for v in size_bad[:1]:
         ctx.violation("c-exceeds-size-bound", {"broken": "output longer than the bound of C01x_xml_size (Proofs/EncXmlSize.v)", "kind": "size-bound", **v})
     if spec_bad:
-        ctx.violation("theorem-spec-vs-pyexpat", {"broken": "the infoset specified by info_g (Proofs/EncXmlIndent.v) under node_ok differs from what pyexpat reads in the C's output",
+        ctx.violation("theorem-spec-vs-pyexpat", {"broken": "the infoset specified by info_e (Proofs/EncXmlEol.v) under node_ok_e differs from what pyexpat reads in the C's output",
                                                   "first_cases": spec_bad[:3]}, found_input=False)
     if not concrete:
         if proof_broken:
